@@ -7,6 +7,7 @@ import (
 	"math/rand"
 	"net/http"
 	"strings"
+	"sync/atomic"
 
 	connect "github.com/bufbuild/connect-go"
 	"github.com/bufbuild/connect-go/verifharness/refcodec"
@@ -30,6 +31,7 @@ type respScenario struct {
 	Body     string `json:"body"`
 	Casing   string `json:"casing"`
 	Fuzz     int    `json:"fuzz"` // > 0: random bytes of this many bytes replace the body / header values
+	Gmsg     string `json:"gmsg"` // class of the grpc-message text accompanying a non-zero status
 }
 
 func init() { families["resp"] = runResp }
@@ -91,6 +93,26 @@ func connectErrJSON(class string) string {
 	}
 	return ""
 }
+
+// grpcMessage: the (possibly malformed) percent-encoded text sent as grpc-message.
+func grpcMessage(class string) string {
+	switch class {
+	case "badpct1":
+		return "quota 100%25 used, retry at 50%!" // an escape cut short at the very end
+	case "badpct2":
+		return "%41%4"
+	case "badpct3":
+		return "x%zz%"
+	}
+	return "nf"
+}
+
+type closeCounter struct {
+	io.Reader
+	n *int64
+}
+
+func (c closeCounter) Close() error { atomic.AddInt64(c.n, 1); return nil }
 
 func runResp(raw json.RawMessage, seed int64, rec *Rec) {
 	var s respScenario
@@ -158,7 +180,7 @@ func runResp(raw json.RawMessage, seed int64, rec *Rec) {
 				if v, ok := statusValue(s.Tstatus); ok {
 					sb.WriteString(casingOf("Grpc-Status", s.Casing) + ": " + v + "\r\n")
 					if s.Tstatus == "5" {
-						sb.WriteString(casingOf("Grpc-Message", s.Casing) + ": nf\r\n")
+						sb.WriteString(casingOf("Grpc-Message", s.Casing) + ": " + grpcMessage(s.Gmsg) + "\r\n")
 					}
 				}
 				if v, ok := detailsValue(s.Tdetails); ok {
@@ -172,7 +194,7 @@ func runResp(raw json.RawMessage, seed int64, rec *Rec) {
 			if v, ok := statusValue(s.Tstatus); ok {
 				trailer.Set("Grpc-Status", v)
 				if s.Tstatus == "5" {
-					trailer.Set("Grpc-Message", "nf")
+					trailer.Set("Grpc-Message", grpcMessage(s.Gmsg))
 				}
 			}
 			if v, ok := detailsValue(s.Tdetails); ok {
@@ -188,7 +210,7 @@ func runResp(raw json.RawMessage, seed int64, rec *Rec) {
 	if v, ok := statusValue(s.Hstatus); ok {
 		hdr.Set("Grpc-Status", v)
 		if s.Hstatus == "5" {
-			hdr.Set("Grpc-Message", "nf")
+			hdr.Set("Grpc-Message", grpcMessage(s.Gmsg))
 		}
 	}
 	if v, ok := detailsValue(s.Hdetails); ok {
@@ -204,6 +226,7 @@ func runResp(raw json.RawMessage, seed int64, rec *Rec) {
 		hdr.Set(encodingHeader(s.Proto, unaryConnect), "zstd-verif")
 	}
 
+	var closes int64
 	fake := &fakeHTTP{}
 	fake.respond = func(req *http.Request) (*http.Response, error) {
 		switch s.Ctype {
@@ -222,7 +245,7 @@ func runResp(raw json.RawMessage, seed int64, rec *Rec) {
 			hdr.Set("Content-Type", "application/json")
 		}
 		return &http.Response{StatusCode: s.Status, Status: statusLine(s.Status), ProtoMajor: 2, Header: hdr,
-			Trailer: trailer, Body: io.NopCloser(bytes.NewReader(body)), Request: req}, nil
+			Trailer: trailer, Body: closeCounter{bytes.NewReader(body), &closes}, Request: req}, nil
 	}
 	copts := clientProtoOpts(s.Proto)
 	if s.Fuzz > 0 {
@@ -300,5 +323,5 @@ func runResp(raw json.RawMessage, seed int64, rec *Rec) {
 	if trl != nil && trl.Get("X-Meta") == "mv" {
 		lookup = "hit"
 	}
-	rec.Add(E("done", "ok", cerr == nil, "code", codeOf(cerr), "n", n, "lookup", lookup))
+	rec.Add(E("done", "ok", cerr == nil, "code", codeOf(cerr), "n", n, "lookup", lookup, "closed", atomic.LoadInt64(&closes)))
 }
